@@ -852,7 +852,20 @@ class Ctx(object):
             if cond:
                 ob = Obligation(label, "unsat", 0.0, "concrete")
             else:
-                ob = Obligation(label, "sat", 0.0, "concrete", self._model_vals(None, watch))
+                # decided by plain Python values on this path: the counterexample is any model of the path
+                # condition (it carries the branch/choice decisions that lead here)
+                mv0 = {}
+                try:
+                    nums = [_real(z) for z in self.symbols.values() if z.sort() != z3.BoolSort() and z.sort() != z3.IntSort()]
+                    extra = ([z3.Distinct(*nums)] if len(nums) > 1 else []) + [z3.And(r != 0, r != 1) for r in nums]
+                    vm = solve(self.pc + extra, timeout_ms=3000)
+                    if vm.status != "sat":
+                        vm = solve(self.pc, timeout_ms=5000)
+                    if vm.status == "sat":
+                        mv0 = self._model_vals(vm.model, watch)
+                except z3.Z3Exception:
+                    pass
+                ob = Obligation(label, "sat", 0.0, "concrete", mv0)
             self.obligations.append(ob)
             if fatal and not cond:
                 raise PathViolation(label)
